@@ -1042,6 +1042,10 @@ func modelGet(f *Frame, st *State, e *ast.CallExpr, recv *Term, args []*Term, si
 	el := c.fresh("itElems", ArrSort(SInt, SInt))
 	posf := c.declareFun(fmt.Sprintf("itPos!%d", c.nfresh), []Sort{SStr}, SInt)
 	c.assume(st, Ge(ln, IntLit(0)))
+	if c.itPosFn == nil {
+		c.itPosFn = map[string]string{}
+	}
+	c.itPosFn[it.Op] = posf
 	tb := f.tableArr(st, t)
 	// predicate on a row
 	var pred func(w *State, row *Term, key *Term) *Term
